@@ -140,4 +140,35 @@ theorem reqinfo_host_src : reqinfo_host_rhs = "agdnet.NormalizeDomain(q.Name)" :
 /-- … while the fake-ECS list is asked about the question name as the message carries it. -/
 theorem dep_name_arg_src : dep_name_arg = "scope, req.Question[0].Name" := by decide
 
+
+/-! ## Round 4: the server around the handler, the builder -/
+
+/-- `processLocationErr` returns the original error only when it is not a `BadECSError`; after the
+FORMERR it returns the (annotated) error of the write alone (`Agd.ECS.formerrRunNew`). -/
+theorem formerr_returns_src :
+    formerr_returns = "origErr | errors.Annotate(err, \"writing formerr resp: %w\")" := by decide
+/-- `serveDNSMsgInternal` answers every error of the handler with a SERVFAIL (`Agd.ECS.serverWrites`). -/
+theorem server_err_conds_src :
+    server_err_conds = "resp != nil | err != nil | err != nil | isNonCriticalNetError(err) | err != nil" := by decide
+/-- A message that does not unpack is not answered (`Agd.ECS.WireOut.dropped`). -/
+theorem server_unpack_returns_src : server_unpack_returns = "false | s.serveDNSMsg(ctx, req, rw)" := by decide
+/-- DoH answers with what its non-writer holds, and the non-writer keeps the last message written
+(`Agd.ECS.delivered`). -/
+theorem doh_nonwriter_src : doh_nonwriter = "1" := by decide
+theorem nonwriter_assign_src : nonwriter_assign = "{ r.req = req r.res = resp return nil }" := by decide
+/-- `cacheConfig.toInternal` / `validate` (`Agd.ECS.CacheYAML.kind`, `valid`, `counts`). -/
+theorem cache_to_internal_conds_src : cache_to_internal_conds = "c.Size == 0 | c.Type == cacheTypeSimple" := by decide
+def cacheToInternalExpected : String :=
+  "&dnssvc.CacheConfig{ MinTTL: c.TTLOverride.Min.Duration, ECSCount: c.ECSSize, NoECSCount: c.Size, Type: typ, OverrideCacheTTL: c.TTLOverride.Enabled, }"
+theorem cache_to_internal_src : cache_to_internal_ecs = cacheToInternalExpected := rfl
+def cacheValidateExpected : String :=
+  "c == nil | c.Type != cacheTypeSimple && c.Type != cacheTypeECS | c.Size < 0 | c.Type == cacheTypeECS && c.ECSSize <= 0 | default"
+theorem cache_validate_src : cache_validate_cases = cacheValidateExpected := rfl
+/-- `wrapPreUpstreamMw`: only `CacheTypeECS` wraps the upstream handler in `ecscache`
+(`Agd.ECS.upstreamExtra`), with the two sizes in their places. -/
+theorem preupstream_cases_src : preupstream_cases = "CacheTypeNone | CacheTypeSimple | CacheTypeECS | default" := by decide
+def preupstreamECSExpected : String :=
+  "&ecscache.MiddlewareConfig{ Cloner: c.Cloner, Logger: c.BaseLogger.With(slogutil.KeyPrefix, \"ecscache\"), CacheManager: c.CacheManager, GeoIP: c.GeoIP, NoECSCount: conf.NoECSCount, ECSCount: conf.ECSCount, MinTTL: conf.MinTTL, OverrideTTL: conf.OverrideCacheTTL, }"
+theorem preupstream_ecs_args_src : preupstream_ecs_args = preupstreamECSExpected := rfl
+
 end Agd.Tie.C05
